@@ -36,8 +36,28 @@ enum Op { Load, Commit }
 
 type Res = Result<Arc<ReadonlyRepo>, String>;
 
+/// One repository on disk reused by all cases: before each case `op_heads/heads/` is reset to the
+/// state `SimpleOpHeadsStore::init` leaves (only the initial head's marker file).  Operations of
+/// earlier cases stay in the op store; they are unreachable from the new heads and have unique ids.
+struct Env { test_repo: TestRepo, heads_dir: PathBuf, initial_head: String, loaders: Vec<RepoLoader> }
+impl Env {
+    fn new(max_np: usize) -> Self {
+        let test_repo = TestRepo::init();
+        let settings = testutils::user_settings();
+        let heads_dir = test_repo.repo_path().join("op_heads").join("heads");
+        let loaders = (0..max_np).map(|_| RepoLoader::init_from_file_system(&settings, test_repo.repo_path(),
+            &test_repo.env.default_backend_factories()).expect("loader")).collect();
+        let heads: Vec<String> = std::fs::read_dir(&heads_dir).unwrap().map(|e| e.unwrap().file_name().into_string().unwrap()).collect();
+        assert_eq!(heads.len(), 1, "a fresh repo has one op head");
+        Env { test_repo, heads_dir, initial_head: heads[0].clone(), loaders }
+    }
+    fn reset(&self) {
+        for e in std::fs::read_dir(&self.heads_dir).unwrap() { std::fs::remove_file(e.unwrap().path()).unwrap(); }
+        std::fs::write(self.heads_dir.join(&self.initial_head), "").unwrap();
+    }
+}
+
 struct Case {
-    test_repo: TestRepo,
     heads_dir: PathBuf,
     sched: Sched<Res>,
     loaders: Vec<RepoLoader>,
@@ -60,13 +80,12 @@ struct Case {
 }
 
 impl Case {
-    fn new(np: usize) -> Self {
-        let test_repo = TestRepo::init();
-        let settings = testutils::user_settings();
-        let heads_dir = test_repo.repo_path().join("op_heads").join("heads");
-        let loaders = (0..np).map(|_| RepoLoader::init_from_file_system(&settings, test_repo.repo_path(),
-            &test_repo.env.default_backend_factories()).expect("loader")).collect();
-        let mut c = Case { test_repo, heads_dir, sched: Sched::new(np, "opheads."), loaders, handle: vec![None; np],
+    fn new(np: usize, env: &Env) -> Self {
+        env.reset();
+        let heads_dir = env.heads_dir.clone();
+        let loaders: Vec<RepoLoader> = env.loaders[..np].to_vec();
+        let _ = &env.test_repo;
+        let mut c = Case { heads_dir, sched: Sched::new(np, "opheads."), loaders, handle: vec![None; np],
             cur_op: vec![None; np], resolved: vec![0; np], num: HashMap::new(), dag: vec![], order: vec![],
             slot: Arc::new(Mutex::new(None)), lock_holder: None, added: BTreeSet::new(), req: vec![], ans: vec![],
             failed: None, max_heads: 0, merges: 0, counter: 0 };
@@ -136,7 +155,8 @@ impl Case {
         let handle = self.handle[pid].clone();
         let slot = self.slot.clone();
         *slot.lock().unwrap() = None;
-        self.counter += 1;
+        static COUNTER: std::sync::atomic::AtomicUsize = std::sync::atomic::AtomicUsize::new(0);
+        self.counter = COUNTER.fetch_add(1, std::sync::atomic::Ordering::SeqCst);
         let desc = format!("op {} by process {pid}", self.counter);
         let st = self.sched.start(pid, move || -> Res {
             match op {
@@ -275,12 +295,11 @@ impl Case {
             None => out.oracle_ok(),
             Some((sig, detail)) => out.oracle_fail(&sig, format!("[{label} {mode:?}] {detail}; replay: C14 {request}")),
         }
-        let _ = &self.test_repo;
     }
 }
 
-fn random_case(out: &mut Out, r: &mut Rng, mode: Mode, np: usize, nops: usize) {
-    let mut c = Case::new(np + 1);
+fn random_case(out: &mut Out, env: &Env, r: &mut Rng, mode: Mode, np: usize, nops: usize) {
+    let mut c = Case::new(np + 1, env);
     let crashy = r.chance(1, 3);
     let mut started = 0;
     loop {
@@ -306,13 +325,13 @@ fn random_case(out: &mut Out, r: &mut Rng, mode: Mode, np: usize, nops: usize) {
 
 /// All schedules (stateless DFS, re-executing from scratch) of fixed per-process programs after a
 /// sequential `setup`; at most `max_crashes` crashes per schedule.  Returns (cases run, completed?).
-fn exhaustive(out: &mut Out, mode: Mode, setup: &[(usize, Op)], programs: &[Vec<Op>], max_crashes: usize, budget: usize, label: &str) -> (usize, bool) {
+fn exhaustive(out: &mut Out, env: &Env, mode: Mode, setup: &[(usize, Op)], programs: &[Vec<Op>], max_crashes: usize, budget: usize, label: &str) -> (usize, bool) {
     let np = programs.len();
     let mut prefix: Vec<usize> = vec![];
     let mut runs = 0;
     loop {
         if runs >= budget { return (runs, false); }
-        let mut c = Case::new(np + 1);
+        let mut c = Case::new(np + 1, env);
         for (p, op) in setup { c.start(*p, *op); while c.parked(*p) { c.step(*p, mode); } }
         let mut next_op = vec![0usize; np];
         let mut choices: Vec<(usize, usize)> = vec![];
@@ -352,6 +371,7 @@ pub fn run(cfg: &Cfg, out: &mut Out) {
         unsafe { std::env::set_var("TMPDIR", "/dev/shm"); }
     }
     sched::quiet_crash_panics();
+    let env = Env::new(4);
     use Op::*;
     let quick = cfg.tier == Tier::Quick;
     let mut complete = true;
@@ -367,7 +387,7 @@ pub fn run(cfg: &Cfg, out: &mut Out) {
     ];
     for (label, setup, programs, max_crashes, budget) in plans {
         for mode in [Mode::Working, Mode::Ineffective] {
-            let (n, done) = exhaustive(out, mode, setup, &programs, max_crashes, budget * cfg.scale as usize, label);
+            let (n, done) = exhaustive(out, &env, mode, setup, &programs, max_crashes, budget * cfg.scale as usize, label);
             notes.push(format!("{label} {mode:?}: {n} schedules{}", if done { " (all)" } else { " (budget reached)" }));
             complete &= done;
         }
@@ -379,7 +399,7 @@ pub fn run(cfg: &Cfg, out: &mut Out) {
     for _ in 0..rounds {
         for (nops, np) in [(3usize, 2usize), (5, 2), (6, 3), (9, 3)] {
             for mode in [Mode::Seq, Mode::Working, Mode::Ineffective] {
-                for _ in 0..6 { random_case(out, &mut r, mode, np, nops); }
+                for _ in 0..6 { random_case(out, &env, &mut r, mode, np, nops); }
             }
         }
     }
